@@ -3,6 +3,7 @@
 -/
 import Distill.Proofs.LinkScore
 import Distill.Model.PageInfo
+import Distill.Proofs.Scan
 import Distill.Gen.Funcs
 import Distill.Gen.Tables
 namespace Distill.LinkScoreProps
@@ -102,6 +103,25 @@ theorem other_host_is_no_page_link (text : String) (h : PageInfo.H) (hne : h.res
 example : PageInfo.pageInfo "[3]" ⟨"http://e.com/a?page=3#x", true, true, true, "http://e.com/a?page=3"⟩ = some (3, "http://e.com/a?page=3") := by
   decide +kernel
 example : PageInfo.pageInfo "101" ⟨"http://e.com/a?page=101", true, true, true, "http://e.com/a?page=101"⟩ = none := by decide +kernel
+
+/-! ### the DOM scan of the page-number algorithm (`Model/Scan.lean`) -/
+
+/-- **Provenance through the DOM scan**: whatever the tree, every page info the scan hands to the
+groups of adjacent numbers is the page info `getPageInfoAndText` gives for one of its anchors, or a
+plain number without URL read from a text node.  (With `page_info_provenance` and the provenance
+theorem of the detection, a NextPage / PrevPage of the page-number algorithm is the cleaned href of an
+anchor on the page's host.) -/
+theorem scan_provenance (A : Scan.A) (root : Node) (ops : List Pg.GOp) (h : Scan.scanOps A root = some ops) :
+    ∀ o ∈ ops, Scan.OkOp A o := Scan.scanOps_provenance A root ops h
+
+/-- non-vacuity: `<div><a>1</a> <b>2</b> <a>3</a></div>` with page infos for the two anchors -/
+def exAtoms : Scan.A where
+  pageInfo := fun i => if i == 1 then some (1, "u1") else if i == 6 then some (3, "u3") else none
+  noWords := fun i => i == 3 || i == 5
+def exTree : Node :=
+  .elem 0 "div" [] [.elem 1 "a" [] [.text 2 "1"], .text 3 " ", .elem 4 "b" [] [.text 7 "2"], .text 5 " ", .elem 6 "a" [] [.text 8 "3"]]
+example : (Scan.scanGroups exAtoms exTree).map (·.map fun g => (g.deltaSign, g.list.map fun p => (p.num, p.url))) =
+    some [(1, [(1, "u1"), (2, ""), (3, "u3")])] := by decide +kernel
 
 /-! non-vacuity: page 2 of `http://e.com/a?page=N` with anchors `Next` → page 3 and `4` → page 4
 inside `<div class="pagination">` -/
